@@ -496,8 +496,9 @@ impl Property for C14 {
          insert a spike, collapse a ring to collinear points, revisit a vertex, move a hole outside / across the shell, hole sharing \
          an edge with the shell, second hole equal to / sharing an edge with / nested in another, hole equal to the shell, too few \
          coordinates (also a one-coordinate hole, an exterior collapsed to a point or emptied while its holes stay, and - two defects \
-         at once - such a member whose hole is moved across another member), repeated vertices (valid), duplicated / overlapping / edge-sharing / nested / far / vertex-touching \
-         multipolygon members, NaN / +-inf injection; plus valid geometries of the other types; under exact similarities. Oracle: a \
+         at once - such a member whose hole is moved across another member), a hole with all vertices inside a concave shell whose \
+         edge cuts the reflex corner, repeated vertices (valid), duplicated / overlapping / edge-sharing / nested / far / vertex-touching \
+         multipolygon members (the added member last or first), NaN / +-inf injection; plus valid geometries of the other types; under exact similarities. Oracle: a \
          literal transcription of the statement on the lattice (exact ring simplicity, exact DE-9IM between rings taken as \
          polygons) which also says which ring / member has which defect. Checked: is_valid <=> oracle; validation_errors empty <=> \
          is_valid; check_validation = first of validation_errors; when the oracle finds exactly one defect every reported error must \
